@@ -523,7 +523,11 @@ class C17(Check):
             op["confirm"] = (rng.random() < 0.75) if warn is None else warn
             op["as_path"] = (rng.random() < 0.5) if as_path is None else as_path
             op["path_form"] = rng.choice(["plain", "plain", "dot", "abs",
-                                          "updir", "tilde"])
+                                          "updir", "tilde", "linkdir"])
+            if op["path_form"] == "linkdir":
+                # given as "lnk/../name" where lnk is a symlink to the
+                # directory store_dir/deep: the file is store_dir/name
+                op["path"] = "store_dir/" + os.path.basename(op["path"])
             op["positional_flag"] = rng.random() < 0.3
         elif kind != "cli_generate":
             w = (rng.random() < 0.75) if warn is None else warn
@@ -700,6 +704,8 @@ class C17(Check):
                 rel = f"{d}/../{d}/{b}"
             elif form == "tilde" and "/" not in rel:
                 rel = "~/" + rel  # not expanded by any shell (quoted, config)
+            elif form == "linkdir" and rel.startswith("store_dir/"):
+                rel = "lnk/../" + os.path.basename(rel)
             return Path(rel) if op.get("as_path") else rel
 
         # the flag is an ordinary parameter: by keyword or by position
@@ -874,6 +880,9 @@ class C17(Check):
                     f"{self.seed}:{self.k}".encode()).hexdigest()[:8]
 
         tempfile._name_sequence = _Names(case["seed"])
+        os.makedirs(os.path.join(sb.root, "store_dir", "deep"))
+        os.symlink(os.path.join("store_dir", "deep"),
+                   os.path.join(sb.root, "lnk"))
         if case.get("unprivileged"):
             # the rest of this history runs as an ordinary user: file
             # permissions apply (the harness itself usually runs as root, for
